@@ -7,6 +7,8 @@ use rand::SeedableRng;
 use serde_json::Value;
 
 mod c01;
+mod c02;
+mod c03;
 mod c06;
 mod c07;
 mod c18;
@@ -53,8 +55,10 @@ impl Tracer {
         if self.cur.is_none() || self.cur_events >= self.shard_events || self.cur_bytes >= self.shard_bytes {
             self.roll();
         }
-        let r = crate::exec::exec(&ev);
-        ev.as_object_mut().unwrap().insert("r".into(), r.clone());
+        let r = if ev["op"] == "reset" { Value::Null } else { crate::exec::exec(&ev) };
+        if !r.is_null() {
+            ev.as_object_mut().unwrap().insert("r".into(), r.clone());
+        }
         let line = ev.to_string();
         self.cur_bytes += line.len();
         writeln!(self.cur.as_mut().unwrap(), "{}", line).unwrap();
@@ -72,9 +76,11 @@ impl Tracer {
 pub fn drive(prop: &str, tier: &str, seed: u64, outdir: &str) -> u64 {
     let thorough = tier == "thorough";
     let mut rng = StdRng::seed_from_u64(seed ^ 0x5eed_0000);
-    let mut tr = Tracer::new(outdir, &format!("drv-{}", prop), 4000);
+    let mut tr = Tracer::new(outdir, &format!("drv-{}", prop), 20000);
     match prop {
         "C01" => c01::drive(&mut tr, &mut rng, thorough),
+        "C02" => c02::drive(&mut tr, &mut rng, thorough),
+        "C03" => c03::drive(&mut tr, &mut rng, thorough),
         "C06" => c06::drive(&mut tr, &mut rng, thorough),
         "C07" => c07::drive(&mut tr, &mut rng, thorough),
         "C18" => c18::drive(&mut tr, &mut rng, thorough),
